@@ -479,7 +479,9 @@ func (c *Ctx) exec(fr *frame, in ssa.Instruction) {
 		if o := fr.fn.Origin(); (o != nil && o.String() == "(*github.com/synnaxlabs/x/observe.base).GoNotify") ||
 			strings.HasPrefix(fr.fn.String(), "(*github.com/synnaxlabs/x/observe.base[") && strings.HasSuffix(fr.fn.String(), ").GoNotify") {
 			c.noteFn("intrinsic:go-as-sync-call in " + fnKey(fr.fn))
+			c.goDepth++
 			c.doCall(fr, &x.Call, x)
+			c.goDepth--
 			return
 		}
 		c.unsupported("go statement")
